@@ -154,7 +154,14 @@ class RateModel:
             raise AnalysisError(f"{cls}.{meth} not found", (self.pkg.cls(cls).file, 0), MISSING)
         key = (dc, meth)
         if key not in self._flows:
-            self._flows[key] = Flow(fn, self.pkg.cls(dc).file, keep_arms=True)
+            no_inline = {"_beautify", "_create_species", "_rate_surface", "_parse_string", "register", "unregister"}
+
+            def resolver(name, cls=cls):
+                if name in no_inline or not name.startswith("_") or name.startswith("__"):
+                    return None
+                _, f = self.pkg.resolve(cls, name)
+                return f
+            self._flows[key] = Flow(fn, self.pkg.cls(dc).file, keep_arms=True, resolver=resolver)
         return dc, fn, self._flows[key]
 
     def variants(self, cls: str, meth: str = "rateexpr", enumerate_conditions=True) -> list:
@@ -175,7 +182,7 @@ class RateModel:
                 beaut = True
                 v = v[3][0]
             for path, leaf in split_phi(v):
-                conds = base + tuple((simp(c), p) for c, p in path)
+                conds = base + tuple(_prim_cond(simp(c), p) for c, p in path)
                 # a value that passed through _beautify inside one arm only
                 b2 = beaut
                 if leaf[0] == "meth" and leaf[1] == SELF and leaf[2] == "_beautify" and len(leaf[3]) == 1:
@@ -194,7 +201,10 @@ class RateModel:
                     continue
                 # optional-factor conditions
                 seen_txt = set()
-                for assume, pe in _expand(leaf, {}, enumerate_conditions):
+                # the path already fixes some primitive conditions: optional factors must be expanded consistently with it
+                given = {c: p for c, p in conds if not any(isinstance(y, tuple) and y and y[0] in ("ifexp", "phi") for y in walk(c))}
+                for assume, pe in _expand(leaf, given, enumerate_conditions):
+                    assume = {k: v2 for k, v2 in assume.items() if k not in given}
                     if any(isinstance(x, tuple) and x == ("undef",) for x in walk(pe)):
                         continue
                     lw = lower(pe)
@@ -263,15 +273,33 @@ class RateModel:
         return eff
 
 
+def _prim_cond(c, pol):
+    """A path condition that is itself a conditional VALUE (`if shield:` with shield = '' or text) reduced to the
+    primitive condition that decides its truthiness."""
+    for _ in range(4):
+        if c[0] in ("phi", "ifexp"):
+            ta, tb = truthy(c[2]), truthy(c[3])
+            if ta is None and c[2][0] == "fstr":
+                ta = True
+            if tb is None and c[3][0] == "fstr":
+                tb = True
+            if ta is not None and tb is not None and ta != tb:
+                c, pol = c[1], (pol if ta else not pol)
+                continue
+        break
+    return (c, pol)
+
+
 def _expand(v, assume, enumerate_conditions=True, depth=0):
     """Decide the undecided ifexp/phi tests of `v` one at a time (outermost first)."""
     pe = simp(peval(_comp_filter_eval(peval(v, assume), assume), assume))
     test = None
     if enumerate_conditions and depth < 7:
-        for x in walk(pe):
-            if isinstance(x, tuple) and x and x[0] in ("ifexp", "phi") and truthy(x[1]) is None:
-                test = x[1]
-                break
+        cands = [x[1] for x in walk(pe) if isinstance(x, tuple) and x and x[0] in ("ifexp", "phi") and truthy(x[1]) is None]
+        # decide primitive conditions first: a condition that is itself a conditional value follows from them
+        prim = [c for c in cands if not any(isinstance(y, tuple) and y and y[0] in ("ifexp", "phi") for y in walk(c))]
+        if cands:
+            test = (prim or cands)[0]
     if test is None:
         yield dict(assume), pe
         return
